@@ -217,11 +217,15 @@ def cases(seed, tier):
     # CR LF files whose single sequence line ends right at a multiple of 64 KiB: with k*65536-1 letters the '\r' is the
     # last byte of a 64 KiB piece (a scanner / split function that cuts long lines into buffer-sized pieces before it
     # has seen the line end would keep it); lengths around it as well; Parse and ParseConcurrent
+    # The same for the other read-buffer sizes a rewrite is likely to pick (4 KiB bufio default, 100 KiB, 128 KiB, ...;
+    # seeded change C13-l used bufio.NewReaderSize(r, 100*1024) + ReadSlice), with the CR on the last byte of a piece
+    # counted from the start of the LINE (d = -1) and from the start of the STREAM (the 4-byte header ">c\r\n" before it).
     ks = (1, 2) if quick else (1, 2, 3, 4)
-    for k in ks:
-        for d in (-2, -1, 0):
-            n = k * 65536 + d           # letters: k*65536-1 puts the CR at offset k*65536-1 of the line
-            recs = [("crlf%d" % n, seq(r, n)), ("next", seq(r, 7))]
+    bufs = (65536, 4096, 102400, 131072) if quick else (65536, 4096, 8192, 16384, 32768, 102400, 131072, 262144, 1048576)
+    for k, B, d in [(k, B, d) for B in bufs for k in (ks if B == 65536 else ks[:2]) for d in ((-2, -1, 0) if B == 65536 else (-1, -5))]:
+        if True:
+            n = k * B + d               # letters: k*B-1 puts the CR at offset k*B-1 of the line
+            recs = [("crlf%d" % n if d != -5 else "c", seq(r, n)), ("next", seq(r, 7))]
             fields = [recs[0][0], recs[0][1], "1", str(n + 10), "", "", "", "",
                       recs[1][0], recs[1][1], "1", "59", "", "", "", ""]
             yield ["layout", "plain", "1", "2"] + fields
